@@ -283,6 +283,7 @@ Lemma server_legacy_facts s ch v suite fl sv :
                                      In sg (sig_hashes_to_list (sv_set s) false (sv_cert s) 3)) /\
   (fl_cert fl = if authed_suite suite then sv_cert s else None) /\
   (vw_server_chain sv = if memZ suite certAllSuites || memZ suite ecdheEcdsaSuites
+                           || (fix_dhe_dsa_chain && memZ suite dheDsaSuites)
                         then match sv_cert s with Some c => Some (ct_id c) | None => None end else None) /\
   (forall algs, fl_cert_req fl = Some algs -> algs = sig_hashes_to_list (sv_set s) false None v).
 Proof.
@@ -611,8 +612,8 @@ Proof.
   - destruct (server_legacy_facts _ _ _ _ _ _ H2) as [[F1 [F2 _]] [[S1 [S2 _]] [_ [_ [_ [FC [SC _]]]]]]].
     destruct (client_legacy_facts _ _ _ _ _ _ _ H4) as [_ [_ [_ [_ [CC _]]]]].
     destruct (server_legacy_finish_facts _ _ _ _ _ _ _ H5) as [[_ [T2 [_ [_ [_ [_ [_ [_ [T9 _]]]]]]]]] _].
-    rewrite T2, S2 in D. rewrite CC, T9, SC, FC, F2. unfold authed_suite. rewrite D, orb_false_r.
-    destruct (_ || _); reflexivity.
+    rewrite T2, S2 in D. rewrite CC, T9, SC, FC, F2. unfold authed_suite. rewrite D. rewrite ?andb_false_r, ?orb_false_r.
+    destruct (memZ suite certAllSuites || memZ suite ecdheEcdsaSuites); reflexivity.
   - destruct (server_tls13_facts _ _ _ _ _ _ _ _ _ H5) as [_ [_ [_ [_ [_ [FC [_ [SC _]]]]]]]].
     destruct (client_tls13_facts _ _ _ _ _ _ H6) as [_ [_ [_ [_ [CC _]]]]].
     destruct (server_tls13_finish_facts _ _ _ _ _ _ H7) as [[_ [_ [_ [_ [_ [_ [_ [_ [_ [T10 _]]]]]]]]]] _].
